@@ -12,7 +12,12 @@ use crate::xoracle::Judge;
 
 pub struct C20;
 
-const REPLS: &[&str] = &["{}", "{}", "_", "R", "%%", "\u{e9}", "aa", "{"];
+const REPLS: &[&str] = &[
+    "{}", "{}", "{}", "_", "R", "%%", "\u{e9}", "aa", "{",
+    // replacement strings whose proper prefix is also a suffix of that prefix: an occurrence
+    // can begin inside a failed partial match ("aaab", "{{{}}}", "ababac")
+    "aab", "{{}}", "%%n", "abac", "ab", "\u{e9}\u{e9}x", "=-=/",
+];
 
 fn gen_line(rng: &mut Rng, r: &str) -> Vec<u8> {
     let mut l = Vec::new();
@@ -42,17 +47,39 @@ fn gen_initial(rng: &mut Rng, r: &str) -> String {
     let mut a = String::new();
     let pieces = rng.small(1, 4);
     for _ in 0..pieces {
-        match rng.weighted(&[5, 5, 1]) {
+        match rng.weighted(&[5, 5, 1, 2, 2]) {
             0 => {
                 for _ in 0..rng.small(1, 4) {
                     a.push(*rng.pick(&['a', 'b', '-', '=', '/', '.', ' ']));
                 }
             }
             1 => a.push_str(r),
-            _ => {
+            2 => {
                 // R adjacent to itself
                 a.push_str(r);
                 a.push_str(r);
+            }
+            3 => {
+                // a proper prefix of R (possibly repeated) directly before R: the occurrence
+                // starts inside a partial match that fails
+                let chars: Vec<char> = r.chars().collect();
+                if chars.len() > 1 {
+                    let k = rng.small(1, chars.len() - 1);
+                    for _ in 0..rng.small(1, 2) {
+                        a.extend(chars[..k].iter());
+                    }
+                }
+                a.push_str(r);
+            }
+            _ => {
+                // text over R's own alphabet, then R
+                let chars: Vec<char> = r.chars().collect();
+                for _ in 0..rng.small(1, 5) {
+                    a.push(*rng.pick(&chars));
+                }
+                if rng.chance(2, 3) {
+                    a.push_str(r);
+                }
             }
         }
     }
